@@ -150,13 +150,17 @@ def gen_history(rng, nops=30, pool_sizes=None, ndocs=2, weights=None, snapshot_e
         if line is None:
             continue
         if isinstance(line, list):
-            lines.extend(line)
-        else:
-            lines.append(line)
+            for l in line:
+                lines.append(l)
+                if snapshot_every:
+                    lines.append('snapshot')
+            count += len(line)
+            continue
+        lines.append(line)
         count += 1
         if snapshot_every and count % snapshot_every == 0:
             lines.append('snapshot')
-    if not snapshot_every or nops % snapshot_every:
+    if lines[-1] != 'snapshot':
         lines.append('snapshot')
     lines.append('end')
     return lines
